@@ -51,9 +51,10 @@ class Spec(core.PropSpec):
     def gen_plan(self, seed, tier):
         st = core.Streams(seed)
         rw = st("world")
-        w = T.gen_world(rw, max_n=24, max_cfg=5)
+        big = tier != "quick"
+        w = T.gen_world(rw, max_n=48 if big else 24, max_cfg=7 if big else 5)
         if not w["configs"]:
-            w = T.gen_world(rw, max_n=24, max_cfg=5)
+            w = T.gen_world(rw, max_n=48 if big else 24, max_cfg=7 if big else 5)
         ro = st("ops")
         level = ro.choice(["sampler", "sampler", "loader"])
         plan = dict(world=w, level=level, via=ro.choice(["sampler", "batch_sampler"]))
